@@ -173,7 +173,7 @@ func TestC14Enum(t *testing.T) {
 	n := 0
 	enumLin(t, "C14", func(ec enumCase) bool {
 		n++
-		if ec.Sweep || ec.HalfFreed || ec.Op0.Kind == "renamelong" || ec.Op0.Kind == "createlong" {
+		if ec.Sweep || ec.HalfFreed || ec.HalfCut || ec.Op0.Kind == "renamelong" || ec.Op0.Kind == "createlong" {
 			return true
 		}
 		for _, o := range ec.Prog1 {
